@@ -83,7 +83,7 @@ def startPull (s : Srv) (st : Stream) (rtsp : Bool) (retry : Option Nat) (nid : 
   ((s.setG st r.1).spawned st rtsp r.2.1, if r.2.1.isSome then .ok else .fail)
 
 /-- the origin answered: `OnPullSucc` / `OnDescribeResponse` → `AddRtmpPullSession / AddRtspPullSession`.
-    Refused ⇒ the callback disposes the pull session, `Start` returns, `WaitChan` fires at once and the
+    Refused (the stream has an input by now, or the attempt was stopped / kicked while it was connecting) ⇒ the callback disposes the pull session, `Start` returns, `WaitChan` fires at once and the
     same goroutine calls `Del…PullSession`: the two critical sections are merged into this event (the
     refused Add changes nothing another goroutine can see). -/
 def pullAttach (code : Code) (s : Srv) (a : Sid) : Srv × Res :=
@@ -93,7 +93,7 @@ def pullAttach (code : Code) (s : Srv) (a : Sid) : Srv × Res :=
     (match s.groups p.stream with
      | none => (s, .na)
      | some g =>
-       let r := if p.rtsp then g.addRtspPull a else g.addRtmpPull a
+       let r := if p.rtsp then g.addRtspPull code a else g.addRtmpPull code a
        if r.2.1 then (((s.setG p.stream r.1).modP a (fun x => { x with st := .attached, wasAttached := true })).noteRelay r.2.2, .ok)
        else ((s.modP a (fun x => { x with st := .done })).delPull code a p.stream, .refused))
   | _ => (s, .na)
@@ -116,11 +116,12 @@ def pullMedia (code : Code) (s : Srv) (a : Sid) : Srv × Res :=
     if (s.groups p.stream).isSome then (s, .fwd p.stream) else (s, .drop)
   | _ => (s, .na)
 
-/-- `CtrlStopRelayPull` -/
-def stopPull (s : Srv) (st : Stream) : Srv × Res :=
+/-- `CtrlStopRelayPull` (succeeds iff `StopPull` names a session: the attached one, or the attempt that
+    is still connecting) -/
+def stopPull (code : Code) (s : Srv) (st : Stream) : Srv × Res :=
   match s.groups st with
   | none => (s, .fail)
-  | some g => let r := g.stopPull; (s.setG st r.1, if r.2.1.isSome then .ok else .fail)
+  | some g => let r := g.stopPull code; (s.setG st r.1, if r.2.1.isSome then .ok else .fail)
 
 /-- the prefix of a session's unique key -/
 def kkind (s : Srv) (x : Sid) : Grp.KKind :=
@@ -133,10 +134,10 @@ def kkind (s : Srv) (x : Sid) : Grp.KKind :=
   | _ => .other
 
 /-- `CtrlKickSession` -/
-def kick (s : Srv) (st : Stream) (x : Sid) : Srv × Res :=
+def kick (code : Code) (s : Srv) (st : Stream) (x : Sid) : Srv × Res :=
   match s.groups st with
   | none => (s, .fail)
-  | some g => let r := g.kick (kkind s x) x; (s.setG st r.1, if r.2.1 then .ok else .fail)
+  | some g => let r := g.kick code (kkind s x) x; (s.setG st r.1, if r.2.1 then .ok else .fail)
 
 /-- the part of one 1 s tick of `ServerManager.RunLoop` that concerns group `st` -/
 def tick (s : Srv) (st : Stream) (nid : Sid) : Srv × Res :=
@@ -191,8 +192,8 @@ def step (code : Code) (s : Srv) : Ev → Srv × Res
   | .pullAttach a => pullAttach code s a
   | .pullDone a => pullDone code s a
   | .pullMedia a => pullMedia code s a
-  | .stopPull st => stopPull s st
-  | .kick st x => kick s st x
+  | .stopPull st => stopPull code s st
+  | .kick st x => kick code s st x
   | .tick st n => tick s st n
   | .stat _ => (s, .ok)
 
